@@ -195,6 +195,19 @@ def op_addmany(w: World, op: dict):
     w.emit(act, {"op": "add", "new": w.ids(res.transferred)})
 
 
+def op_index_elsewhere(w: World, op: dict):
+    """Another remote's index under the same temporary directory records the given objects as pushed there."""
+    from dvc_data.hashfile.db.index import ObjectDBIndex
+
+    other = ObjectDBIndex(w.index_dir(), "another-remote")
+    try:
+        xs = list(op["xs"])
+        other.update([w.uni.oid[x] for x in xs if x in w.uni.dirs], [w.uni.oid[x] for x in xs if x not in w.uni.dirs])
+    finally:
+        other.close()
+    w.emit({"op": "IndexElsewhere", "xs": sorted(op["xs"])}, {"op": "elsewhere"})
+
+
 def op_status(w: World, op: dict):
     from dvc_data.hashfile.status import status
 
@@ -276,7 +289,7 @@ def op_extdel(w: World, op: dict):
     w.emit({"op": "ExtDelete", "s": op["s"], "o": op["o"]}, {"op": "extdel"})
 
 
-OPS = {"Transfer": op_transfer, "AddObj": op_add, "AddMany": op_addmany, "Status": op_status, "CompareStatus": op_cmpstatus,
+OPS = {"Transfer": op_transfer, "AddObj": op_add, "AddMany": op_addmany, "IndexElsewhere": op_index_elsewhere, "Status": op_status, "CompareStatus": op_cmpstatus,
        "Check": op_check, "Gc": op_gc, "Tamper": op_tamper, "ExtDelete": op_extdel}
 
 
@@ -430,6 +443,25 @@ def staging_cases() -> list[dict]:
                     for order in (list(xs), list(reversed(xs))):
                         cases.append({"init": {s: {x: fresh for x in have}}, "ops": [{"op": "AddMany", "s": s, "xs": order}],
                                       "kind": "staging", "useed": len(cases) % 3})
+    return cases
+
+
+def index_elsewhere_cases() -> list[dict]:
+    """Another remote's index (same temporary directory) holds objects this remote never received: indexed queries of and
+    pushes to this remote must not see them."""
+    cases = []
+    allo = FILES + list(DIRS)
+    for X in (allo, ["d1", "f1", "f2"]):
+        for have in ([], ["f3"], ["d2", "f2", "f3"]):
+            init = {"cache": {x: "ok_p" for x in allo}, "remote": {x: "ok_u" for x in have}}
+            for ids in (["d1", "f1", "f2"], ["f1"], ["d1", "d2", "f1", "f2", "f3"], ["d1"]):
+                for shallow in (True, False):
+                    first = {"op": "IndexElsewhere", "xs": X}
+                    cases.append({"init": init, "kind": "index-elsewhere", "useed": len(cases) % 3,
+                                  "ops": [first, {"op": "Status", "s": "remote", "ids": ids, "shallow": shallow, "idx": True}]})
+                    push = {"op": "Transfer", "src": "cache", "dst": "remote", "req": ids, "shallow": shallow, "idx": True, "F": []}
+                    cases.append({"init": init, "kind": "index-elsewhere", "useed": len(cases) % 3,
+                                  "ops": [first, push, {"op": "Status", "s": "remote", "ids": ids, "shallow": False, "idx": False}]})
     return cases
 
 
@@ -752,6 +784,7 @@ def check_C12(run: core.Run, replay=None):
         cases += sim_cases("ObjectStore_sim_status.cfg", 250 if quick else 2500, 8, run.seed + 4)
         cases += many_oids_cases(rng, 6 if quick else 40)
         cases += stale_cases(rng, 400 if quick else 10**9)
+        cases += index_elsewhere_cases()
         # indexed pushes from sources that lack some of the requested objects (files missing on both sides)
         partial = [c for c in tlc_generate("c11quick" if quick else "c11")["c11"] if c["idx"]]
         for c in _sample(partial, 600 if quick else 10**9, rng):
